@@ -77,7 +77,8 @@ func sweepContract(ct *Contract) *Contract {
 	for _, at := range ct.Ats {
 		na := &AtSpec{Where: at.Where}
 		for _, cl := range at.Clauses {
-			if keep(cl) {
+			// ghost assignments carry the state the kept assertions speak of
+			if keep(cl) || cl.Kind == "ghost" {
 				na.Clauses = append(na.Clauses, cl)
 			}
 		}
